@@ -8,9 +8,9 @@
     reproduces on the Go code: known findings).  What holds:
     a run touches only chunks of the files it evicts
     ([C12_gc_touches_only_evicted_files_partial]); the reference counts of
-    chunkinfo are exact along every history in which DelFile only meets
-    registered roots ([C12_refcount_invariant_partial]); under that invariant
-    a run leaves the bytes and the pin count of every chunk of every OTHER
+    chunkinfo are exact along EVERY history ([C12_refcount_invariant], for the
+    code with proposed/C16/fix-delfile-unregistered-root.patch); hence a run
+    leaves the bytes and the pin count of every chunk of every OTHER
     registered file alone, except a chunk that is itself the root of an evicted
     file ([C12_gc_protects_registered_files_partial]). *)
 From Coq Require Import List NArith ZArith Bool.
@@ -92,28 +92,25 @@ Theorem C12_gc_touches_only_evicted_files_partial :
 Proof. exact gc_frame_thm. Qed.
 Print Assumptions C12_gc_touches_only_evicted_files_partial.
 
-(** The reference counts: along every history (any interleaving of localstore calls,
-    registrations, deletes and collection phases) in which DelFile — in the delete handler
-    and in collection runs — only meets REGISTERED roots ([guarded]), the count of every chunk
-    is exactly the number of registered files containing it. *)
-Theorem C12_refcount_invariant_partial :
+(** The reference counts: along EVERY history (any interleaving of localstore calls of any
+    mode, registrations, deletes in any map order and collection phases, from the empty node)
+    the count of every chunk is exactly the number of registered files containing it.
+    (Repaired DelFile: a root the table does not know is registered before the callback.) *)
+Theorem C12_refcount_invariant :
   forall cat po cap (h : list gop),
-    guarded cat po cap sys_init h ->
     let c := ci (gexec cat po cap sys_init h) in
     NoDup (map fst (ci_hash c)) /\ forall a, cnt c a = refs cat c a.
 Proof. exact refcount_thm. Qed.
-Print Assumptions C12_refcount_invariant_partial.
+Print Assumptions C12_refcount_invariant.
 
-(** The protection the counts give.  After every guarded history, a run that meets only
-    registered candidates leaves alone — stored bytes AND pin count — every chunk of every
-    registered file that is not a candidate, unless the chunk is itself the root address of a
-    candidate.  (So within that class: pinned chunks stay, pin counts stay, uploaded chunks of
-    files registered through POST /aurora stay.) *)
+(** The protection the counts give.  After every history, a run leaves alone — stored bytes
+    AND pin count — every chunk of every registered file that is not a candidate, unless the
+    chunk is itself the root address of a candidate.  (So within that class: pinned chunks
+    stay, pin counts stay, uploaded chunks of files registered through POST /aurora stay.) *)
 Theorem C12_gc_protects_registered_files_partial :
   forall cat po cap (h : list gop) ctx rb shb a,
-    guarded cat po cap sys_init h ->
     let x := gexec cat po cap sys_init h in
-    s_gcrun (ls x) = Some ctx -> gc_guard cat (ls x) (ci x) (g_cands ctx) ->
+    s_gcrun (ls x) = Some ctx ->
     registered (ci x) rb = true -> cat_get cat rb = Some shb -> ~ In rb (cand_roots (g_cands ctx)) ->
     In a (cidset shb) -> ~ In a (cand_roots (g_cands ctx)) ->
     data_get (ls (gc_run cat po cap x)) a = data_get (ls x) a /\
@@ -121,18 +118,17 @@ Theorem C12_gc_protects_registered_files_partial :
 Proof. exact gc_protects_thm. Qed.
 Print Assumptions C12_gc_protects_registered_files_partial.
 
-(** non-vacuity: two registered cached files sharing a chunk; the run evicts the older one
-    (registered: the guard holds), the shared chunk, pinned, keeps bytes and pin count *)
+(** non-vacuity: two registered cached files sharing a chunk; the run evicts the older one,
+    the shared chunk, pinned, keeps bytes and pin count; the exclusive chunk goes *)
 Example C12_example :
   let h := [req 1 rA rA; GReg rA; req 2 rA x1; req 3 rA x2; req 4 rB rB; GReg rB; req 5 rB x3;
             GLs (OSet 6 SPin None [x1]); GGcBegin 3 10000] in
   let x := gexec cat0 po0 5 sys_init h in
-  guarded cat0 po0 5 sys_init h /\
-  (exists ctx, s_gcrun (ls x) = Some ctx /\ cand_roots (g_cands ctx) = [rA] /\ gc_guard cat0 (ls x) (ci x) (g_cands ctx)) /\
+  (exists ctx, s_gcrun (ls x) = Some ctx /\ cand_roots (g_cands ctx) = [rA]) /\
   registered (ci x) rB = true /\ pin_get (ls x) x1 = Some 1 /\
   pin_get (ls (gc_run cat0 po0 5 x)) x1 = Some 1 /\ data_has (ls (gc_run cat0 po0 5 x)) x1 = true /\
   data_has (ls (gc_run cat0 po0 5 x)) x2 = false.
 Proof.
-  vm_compute. repeat split; try reflexivity; try discriminate.
+  vm_compute. repeat split; try reflexivity.
   eexists. repeat split; reflexivity.
 Qed.
